@@ -5,6 +5,7 @@
    public entry point Resolve recovers it into an error).  Definitions only. *)
 From Coq Require Import String Ascii.
 From Formula Require Export Sem.Builtins Syn.Ast.
+From Formula Require Import Lex.CaseMap.
 
 (* a host function of the data map: signature, the value it returns, whether it returns an error *)
 Record hostfn := mkHost { h_sig : gosig; h_result : value; h_fail : bool }.
@@ -204,13 +205,13 @@ Definition builtin_apply (local_off : Z) (name : list Z) (args : list value) : o
     else Err
   | [VStr s] =>
     if name_is name "len" then Ok (gi (slen s))
-    else if name_is name "lower" then (if all_ascii s then Ok (VStr (to_lower_ascii s)) else Unk)
-    else if name_is name "upper" then (if all_ascii s then Ok (VStr (to_upper_ascii s)) else Unk)
-    else if name_is name "trim" then (if all_ascii s then Ok (VStr (trim_space s)) else Unk)
+    else if name_is name "lower" then Ok (VStr (if all_ascii s then to_lower_ascii s else lower_utf8 s))
+    else if name_is name "upper" then Ok (VStr (if all_ascii s then to_upper_ascii s else upper_utf8 s))
+    else if name_is name "trim" then Ok (VStr (if all_ascii s then trim_space s else trim_utf8 s))
     else if name_is name "finite" then Ok (VNum dec_zero)
     else if name_is name "toString" then Ok (VStr s)
-    else if name_is name "toInt" then (match to_i64_opt (dec_of_string s) with Some a => Ok (VNum (dec_of_Z a)) | None => Unk end)
-    else if name_is name "toFloat" then Ok (VNum (dec_of_string s))
+    else if name_is name "toInt" then (match to_i64_opt (num_of_text s) with Some a => Ok (VNum (dec_of_Z a)) | None => Unk end)
+    else if name_is name "toFloat" then Ok (VNum (num_of_text s))
     else Err
   | [VStr s; VStr ps; VGoInt _ l] =>
     if name_is name "lpad" then
@@ -255,7 +256,7 @@ Fixpoint dec_min (l : list dec) (cur : dec) : dec :=
   | v :: t => if dec_cmp v cur <? 0 then dec_min t v else dec_min t cur
   end.
 
-Definition is_opaque (v : value) : bool := match v with VOpaque _ => true | _ => false end.
+Definition is_opaque (v : value) : bool := match v with VOpaque _ | VStruct _ _ => true | _ => false end.
 
 Definition builtin_call (local_off : Z) (name : list Z) (args : list value) : outcome value :=
   if existsb is_opaque args then Unk
@@ -301,7 +302,7 @@ Definition iface_eq (a b : value) : outcome bool :=
   | VFunc a, VFunc b => if a =? b then Panic else Unk
   | VBuiltin a, VBuiltin b => if bytes_eqb a b then Panic else Unk
   | VFunc _, VBuiltin _ | VBuiltin _, VFunc _ => Unk
-  | VTime _, VTime _ | VOpaque _, VOpaque _ => Unk            (* struct equality: not modelled *)
+  | VTime _, VTime _ | VOpaque _, VOpaque _ | VStruct _ _, VStruct _ _ => Unk  (* struct equality: not modelled *)
   | VNull, VNull => Ok true
   | VBool x, VBool y => Ok (Bool.eqb x y)
   | VStr x, VStr y => Ok (bytes_eqb x y)
@@ -608,6 +609,8 @@ Fixpoint eval (e : sexpr) (st : rstate) : outcome value * rstate :=
          | VMap m => Ok (match assoc name m with Some x => (if is_null x then VNull else x) | None => VNull end)
          | VTime _ => Panic        (* FieldByName on time.Time: no exported field *)
          | VOpaque _ => Unk
+         | VStruct _ fs =>         (* FieldByName(name).Interface(): the zero Value of a missing or unexported field panics *)
+           match assoc name fs with Some x => Ok (if is_null x then VNull else x) | None => Panic end
          | _ => Ok VNull
          end, st1)
     | x => x
